@@ -120,7 +120,9 @@ def r05_1(chk, dp, dx):
         el_idx = ela[2][0] if ela and ela[0] == "sub" and ela[1].key() == "self.elements" and len(ela[2]) == 1 else None
         same = el_idx is not None and row.key() == el_idx.key()
         covers = loop.iter is not None and ("self.elements" in loop.iter.key())
-        is_table = base.key() == "self.rho_data" or any(f.value.key() == base.key() for f in final)
+        from ..symex import obj_init as _oi
+        is_table = base.key() == "self.rho_data" or any(f.value.key() == base.key() or _oi(f.value).key() == base.key() or _oi(f.value).key() == _oi(t[1]).key()
+                                                        for f in final)
         chk.ob("R05.1", DP, q, "row i of the per-atom table is the table row of element i (same enumerate index)",
                same and covers and is_table, node=e.node, found=f"{base}[{row}] = _RHO[{idx}] in a loop over {loop.iter}"[:200])
         lo, hi = index_bounds(idx, e.guards, {})
